@@ -217,7 +217,7 @@ func init() {
 		},
 		Floors: func(string) map[string]int64 {
 			return map[string]int64{"hash_checks": 50000, "pops": 1000, "pop_castle": 5, "pop_ep": 1, "pop_promotion": 5, "sens_piece": 1000, "sens_castle": 100, "sens_ep": 20, "sens_side": 100,
-				"mv_castle": 20, "mv_ep": 5, "mv_promo": 20, "mv_cappromo": 5, "mv_rights_lost_by_capture": 5, "starts_with_unbacked_right": 20, "mv_king_takes_home_rook_with_right": 3}
+				"mv_castle": 20, "mv_ep": 5, "mv_promo": 20, "mv_cappromo": 5, "mv_rights_lost_by_capture": 5, "starts_with_unbacked_right": 20, "mv_king_takes_home_rook_with_right": 3, "long_games": 4, "rewinds_of_256_or_more": 4}
 		},
 		Run: func(c *fw.Ctx, cs fw.Case) {
 			r := cs.Rand()
@@ -245,7 +245,24 @@ func init() {
 						}
 					}
 					o := gameOpts{plies: plies, bias: bias, popProb: 0.15, forkProb: 0.02, maxTracks: 3}
+					if i%32 == 7 {
+						// a very long game on one board (beyond any 8-, 9- or 10-bit counter or ring), then all of
+						// it taken back move by move: the hash is checked at every ply both ways
+						start = gen.Starts()[[]int{0, 1, 5}[r.Intn(3)]]
+						o = gameOpts{plies: 1100 + r.Intn(200), bias: gen.Shuffly, maxTracks: 1}
+						c.Count("long_games", 1)
+					}
 					gm.runGame(r, zt, start, o)
+					if i%4 == 3 || i%32 == 7 {
+						t0 := gm.tracks[0]
+						n := 0
+						for gm.pop(t0) {
+							n++
+						}
+						if n >= 256 {
+							c.Count("rewinds_of_256_or_more", 1)
+						}
+					}
 					for _, t := range gm.tracks {
 						pp := t.g.Start
 						for _, m := range t.g.Moves {
